@@ -2,7 +2,7 @@
 
 Layers
   model      lean/FAVerif/Models/Rewriter.lean  (hand port of rewrite.py + the inference properties of expr.py)
-  theorems   lean/FAVerif/Props/C04.lean        (infer_sound, tables_sound_partial, rule_sound_*, rewrite_sound_*)
+  theorems   lean/FAVerif/Props/C04.lean        (infer_sound, tables_sound, rule_sound_*, rewrite_sound_*)
   tie        * translator: the three relational tables of rewrite.py (after the module's own symmetric
                completion loop) are re-read on every run and written to lean/FAVerif/Generated/C04Tables.lean
                (data + one kernel-checked verdict per row, Generated/C04Rows.lean);
@@ -27,13 +27,13 @@ from ..runner import PY, REPO, ROOT, Infra
 from ..workers import c04_worker as W
 
 THEOREMS = ["infer_sound", "infer_sound_is_one_partial", "infer_is_one_witness",
-            "tables_sound_partial", "tables_sound_lifted", "tables_unsound_witness",
+            "tables_sound", "tables_sound_lifted", "tables_unsound_witness",
             "rule_sound_add", "rule_sound_subtract", "rule_sound_multiply", "rule_sound_divide", "rule_sound_minimum", "rule_sound_maximum",
             "rule_sound_negative", "rule_sound_absolute", "rule_sound_sqrt", "rule_sound_square", "rule_sound_sign", "rule_sound_constant",
             "rule_sound_upcast", "rule_sound_downcast", "rule_sound_log", "rule_sound_log10", "rule_sound_log2", "rule_sound_log1p",
             "rule_sound_logical_and", "rule_sound_logical_or", "rule_sound_logical_not", "rule_sound_compare", "rule_sound_compare_fold",
             "rule_sound_select", "rule_sound_dispatch", "rule_sound_call", "rule_sound_modifier",
-            "rewrite_sound_real", "rewrite_sound_real_partial", "rewrite_sound_fp_partial",
+            "rewrite_sound_real", "rewrite_sound_real_generated", "rewrite_sound_fp_partial",
             "rewrite_unsound_witness", "upcast_downcast_witness", "no_raise_witness_complex", "no_raise_witness_upcast", "no_raise_witness_sqrt",
             "example_rewrites"]
 SEARCHED = ["termination of the per-node fixpoint (fuel exhaustion in the model, 10 s watchdog on the real rewriter)",
@@ -51,8 +51,9 @@ TRUSTED = ["Lean 4 kernel; axioms propext, Classical.choice, Quot.sound only",
            "FP/Soft.lean == NumPy scalar arithmetic for constant folding (validated by the correspondence of folded constants, bit patterns compared)",
            "hash-consed identity == structural equality (C07), NaN payloads identified"]
 
-# rows of the known finding (status "known" in known_findings.json): recorded with the verdict they have
-KNOWN_BAD_ROWS = {("aa", "Nnonnegative", "Nnonpositive"), ("aa", "Nnonpositive", "Nnonnegative")}
+# rows of a known finding (status "known" in known_findings.json) would be recorded with the verdict they have.
+# Empty since the fix 6a4e7cd in /repo: every consultable row must be sound, an unsound row is a violation.
+KNOWN_BAD_ROWS = set()
 
 NPROC = max(2, min(8, (os.cpu_count() or 4) // 2))
 
@@ -1240,8 +1241,8 @@ LEVEL_TEXT = ("Proof (soundness) + search (termination, no-raise). Theorems (Lea
               "order, every fuel and every assignment on which the expression is defined, the rewriting pass (every rule method, the per-node fixpoint, the "
               "bottom-up traversal) returns an expression with the same value — in exact arithmetic over any ordered field and, in one working precision, "
               "under any monotone odd idempotent rounding away from NaN/overflow/underflow (floats equal up to the sign of zero); sign/zero/finite inference "
-              "is sound; every consulted row of the relational tables, regenerated from the module on each run, is the strongest sound row (two rows excluded: "
-              "known finding, with a negation witness). The model is a hand port tied by a correspondence check (identical trees / exception kinds on >= 2e4 "
+              "is sound; every consulted row of the relational tables, regenerated from the module on each run, is the strongest sound row (full statement "
+              "since the fix 6a4e7cd; the old rows are kept as a regression witness). The model is a hand port tied by a correspondence check (identical trees / exception kinds on >= 2e4 "
               "generated, malformed and all shipped graphs per quick run).")
 LEVEL_NOTE = ("Theorems speak about runs of the strict model (exact constant folds/casts, one dtype for named constants); strict == plain result is checked per "
               "expression. Not theorems: termination, absence of exceptions, complex kinds, lists, mixed-precision floating point — these are searched on the real "
